@@ -2,7 +2,7 @@
 Line-protocol driver of the C03 model (see harness/c03.cpp for the protocol).
 -/
 import TlxVerif.Model.Drv
-import TlxVerif.Model.C03Radix
+import TlxVerif.Model.C03Two
 import TlxVerif.Gen.C03Consts
 open TlxVerif TlxVerif.C03
 
@@ -64,12 +64,13 @@ def runAlgo (algo : String) (c : Consts) (wl : Bool) (depth : Nat) (ss : List (N
   match algo with
   | "ins" => insertionSort str wl depth ss l
   | "mkqs" => multikeyQuicksort str c wl depth ss l mem
-  | "CE0" => radixsortCE0 str c wl depth ss l mem
-  | "CE2" => radixsortCE2 str c wl depth ss l mem
-  | "CE3" => radixsortCE3 str c wl depth ss l mem
+  -- the out-of-place sorts run in their two-array form (active/shadow arrays, flipped flag)
+  | "CE0" => radixsortCE0Two str c wl depth ss l mem
+  | "CE2" => radixsortCE2Two str c wl depth ss l mem
+  | "CE3" => radixsortCE3Two str c wl depth ss l mem
   | "CI2" => radixsortCI2 str c wl depth ss l mem
   | "CI3" => radixsortCI3 str c wl depth ss l mem
-  | _ => sortStrings str c wl ss l mem
+  | _ => sortStringsTwo str c wl ss l mem
 
 def doSort (s : St) (algo rep lcpS memS depthS : String) : Option String := do
   let mem ← memS.toNat?
